@@ -1,6 +1,7 @@
 package main
 
 import (
+	"io"
 	"context"
 	"errors"
 	"math"
@@ -209,7 +210,7 @@ func (w *bWorld) build(f *bFunc) interface{} {
 			if !f.Fail {
 				w.fired++
 			}
-			return []reflect.Value{reflect.Zero(f.retType()), reflect.ValueOf(errors.New("host says no")).Convert(rtErr)}
+			return []reflect.Value{reflect.Zero(f.retType()), reflect.ValueOf(hostErrors[(f.RetSeed+calls+1000)%len(hostErrors)]).Convert(rtErr)}
 		}
 		if f.Reenter {
 			// evaluate a failing formula on the same runner under a derived context, ignore its error
@@ -227,6 +228,22 @@ func (w *bWorld) build(f *bFunc) interface{} {
 	})
 	return fv.Interface()
 }
+
+// the errors host functions return: which error it is must not matter
+type wrappedErr struct {
+	msg string
+	err error
+}
+
+func (e *wrappedErr) Error() string { return e.msg + ": " + e.err.Error() }
+func (e *wrappedErr) Unwrap() error { return e.err }
+
+type emptyErr struct{}
+
+func (emptyErr) Error() string { return "" }
+
+var hostErrors = []error{errors.New("host says no"), context.Canceled, context.DeadlineExceeded, io.EOF,
+	&wrappedErr{"backend 3", context.Canceled}, &wrappedErr{"read", io.ErrUnexpectedEOF}, emptyErr{}, errors.New("host says no")}
 
 // ---------------------------------------------------------------- generation
 
